@@ -274,7 +274,7 @@ Theorem sim_step : forall s a o, R s a -> exists a', step01 a a' /\ R (fst (gste
 Proof.
   intros s a o HR.
   assert (Stay : exists a', step01 a a' /\ R s a') by (exists a; split; [left; reflexivity|exact HR]).
-  destruct o as [i|i|i|i|i p ok|k ok|i|i ok]; cbn [gstep].
+  destruct o as [i|i|i|i|i p ok|k ok|i|i ok|i h|i]; cbn [gstep].
   - (* GElect *)
     unfold valid_id. destruct (N.ltb_spec i (n_nodes cfg)) as [Hi|]; cbn [fst]; [|exact Stay].
     apply sim_timeout; auto.
@@ -307,7 +307,7 @@ Proof.
     unfold valid_id. destruct (N.ltb_spec i (n_nodes cfg)) as [Hi|]; cbn [fst]; [|exact Stay].
     exists a. split; [left; reflexivity|]. apply R_stutter; auto.
     intros d m0 H. unfold heartbeat_msgs in H. destruct (rl _); try contradiction.
-    apply in_map_iff in H. destruct H as [p [E Hp]]. destruct (entries_for _ p) as [[pi pt] es].
+    apply in_map_iff in H. destruct H as [p [E Hp]]. destruct (entries_for _ _ p) as [[pi pt] es].
     injection E as <- <-. split; [reflexivity|apply (peers_valid i p Hp)].
   - (* GPropose *)
     unfold valid_id. destruct (N.ltb_spec i (n_nodes cfg)) as [Hi|]; cbn [fst]; [|exact Stay].
@@ -398,6 +398,16 @@ Proof.
     destruct ok; cbn [fst]; [|exact Stay].
     apply sim_timeout; auto.
     + unfold start_election, absn. cbn. rewrite (absn_old s a i HR Hi). cbn. f_equal. lia.
+    + intros d m0 [].
+  - (* GFinalize: invisible to the voting abstraction *)
+    unfold valid_id. destruct (N.ltb_spec i (n_nodes cfg)) as [Hi|]; cbn [fst]; [|exact Stay].
+    exists a. split; [left; reflexivity|]. apply R_stutter; auto.
+    + unfold finalize. destruct (N.leb h (commit (nth_node (nodes s) i))); reflexivity.
+    + intros d m0 [].
+  - (* GCompact: invisible to the voting abstraction *)
+    unfold valid_id. destruct (N.ltb_spec i (n_nodes cfg)) as [Hi|]; cbn [fst]; [|exact Stay].
+    exists a. split; [left; reflexivity|]. apply R_stutter; auto.
+    + unfold compact. match goal with |- context [if ?c then _ else _] => destruct c end; reflexivity.
     + intros d m0 [].
 Qed.
 
